@@ -110,6 +110,8 @@ theorem estabChallenge_order (sent1 : Sent) (p2 : σ) (c1 : Client) (fs1 : List 
   simp only [estabChallenge]
   generalize hc : ({ c1 with s := { c1.s with auth := (chooseAuth cfg.pref ((fs1.getD 1 []).getD 0 0)).getD 256 } } : Client) = c1'
   generalize hdata : ([(chooseAuth cfg.pref ((fs1.getD 1 []).getD 0 0)).getD 0 % 16] ++ userField cfg.user) = data
+  split
+  · exact ⟨0, 0, 0, by omega, by omega, by omega, by omega, by omega, by simp, by simp [Outcome.isOk]⟩
   have hx := exchange_sent md5 P cfg p2 c1' netfnApp 0 cmdGetChallenge data
   rcases he : exchange md5 P cfg p2 c1' netfnApp 0 cmdGetChallenge data with ⟨p3, c2, s2, o⟩
   rw [he] at hx
